@@ -358,6 +358,9 @@ func runC06(c *Ctx, r *Report, tier string) {
 			if strings.HasPrefix(t, nl.a) && (nl.b == "" || strings.Contains(t[len(nl.a):], ", "+nl.b) || strings.Contains(t, nl.b)) {
 				found = true
 			}
+			if nl.desc == "remaining-argument test" && (strings.HasPrefix(t, "eq(23, invoke:Type.Kind(call:(reflect.Value).Type(Arg.value("+elem) || strings.HasPrefix(t, "eq(23, call:(reflect.Value).Kind(Arg.value("+elem)) {
+				found = true // isRemaining looked through: the slice-kind test of the element's value
+			}
 		}
 		r.Check(found, "POSITIONAL", fname, nl.desc, c.pos(cr.Pos()), "branch condition present on the positional elements", "no branch with shape "+nl.a+"… "+nl.b)
 	}
